@@ -458,6 +458,7 @@ func runC12(p *core.Prog, r *core.Report) {
 
 	// ------------------------------------------------------------------ R4
 	r.Guard("C12.R4", "resolveStartBlockNum", "cursor resolution", func() { checkCursorResolution(p, r, "C12.R4") })
+	r.GuardExact("C12.R4", "resolveStartBlockNum/resolved", "a start cursor is always resolved", func() { checkCursorAlwaysResolved(p, r, "C12.R4") })
 
 	// ------------------------------------------------------------------ R5
 	r.Guard("C12.R5", "handoff-values", "every hand-off is a boundary unless nothing is back-filled", func() { checkHandoffValues(p, r) })
